@@ -76,6 +76,11 @@ fn do_case(reg: &[Entry], i: usize, r: usize, mu: &str, val: &str) -> String {
 }
 
 fn main() {
+    // values of types with megabyte-sized items are built on the stack by the (unoptimized) generated code
+    std::thread::Builder::new().stack_size(1 << 30).spawn(real_main).unwrap().join().unwrap();
+}
+
+fn real_main() {
     std::panic::set_hook(Box::new(|_| {}));
     let reg = gen_types::registry();
     let sreg = gen_types::slice_registry();
@@ -181,6 +186,20 @@ fn main() {
             ["dropcheck", loader, n] => Some(epsh::ops::dropcheck(loader, n.parse().unwrap())),
             ["fload", i, loader, h] => Some(match reg[i.parse::<usize>().unwrap()].fload {
                 Some(f) => f(&unhex(h), loader),
+                None => "badval".into(),
+            }),
+            // the file is the serialization of the value without its last `cut` bytes (big files: no hex on the line)
+            ["floadc", i, loader, cut, val] => Some(match parse(val) {
+                Some(t) => {
+                    let e = &reg[i.parse::<usize>().unwrap()];
+                    match ((e.ser)(&t), e.fload) {
+                        (Ok((_, bytes)), Some(f)) => {
+                            let c: usize = cut.parse().unwrap();
+                            f(&bytes[..bytes.len().saturating_sub(c)], loader)
+                        }
+                        _ => "badval".into(),
+                    }
+                }
                 None => "badval".into(),
             }),
             ["alloc", i, r, val] => Some(match (parse(val), reg[i.parse::<usize>().unwrap()].alloc) {
